@@ -346,34 +346,45 @@ def getFilename (fr : Nat → PyFloat → String) (env : List (String × PyVal))
   | .error (.py .KeyError) => .ok tplText
   | .error e => .error e
 
+/-- `filename = '{0}.pickle'.format(filename)` when there is no extension -/
+def normExt (ext : String) : String := if ext == "" then ".pickle" else ext
+
+inductive Fmt where | pickle | json
+  deriving DecidableEq, Repr
+
+/-- the two `ext_to_*_func_mapping` dictionaries -/
+def fmtOf (ext : String) : Option Fmt :=
+  if ext == ".pickle" then some .pickle else if ext == ".json" then some .json else .none
+
 /-- `save_to_file`: returns the store, the object (its `original_filename` is
     now the template) and the actual name -/
 def saveToFile (fr : Nat → PyFloat → String) (st : Store) (s : SimResults)
     (tplText : String) (tpl : List Seg) (ext : String) : R (Store × SimResults × FName) :=
-  let ext' := if ext == "" then ".pickle" else ext
-  let s' := { s with originalFilename := .str (tplText ++ ext') }
+  let s' := { s with originalFilename := .str (tplText ++ normExt ext) }
   match s'.params with
   | [] => .error .unmodelled
   | n :: _ =>
     (getFilename fr n.parameters tplText tpl).bind fun stem =>
-      let f : FName := { stem := stem, ext := ext' }
-      if ext' == ".pickle" then .ok ((f, .pickled s') :: st, s', f)
-      else if ext' == ".json" then .ok ((f, .json (simToJson s')) :: st, s', f)
-      else raise .KeyError
+      let f : FName := { stem := stem, ext := normExt ext }
+      match fmtOf (normExt ext) with
+      | some .pickle => .ok ((f, .pickled s') :: st, s', f)
+      | some .json => .ok ((f, .json (simToJson s')) :: st, s', f)
+      | .none => raise .KeyError
 
 /-- `load_from_file` (`RuntimeError` stands for `FileNotFoundError`) -/
 def loadFromFile (fuel : Nat) (st : Store) (f : FName) : R SimResults :=
-  let f' : FName := if f.ext == "" then { f with ext := ".pickle" } else f
-  if f'.ext == ".pickle" then
+  let f' : FName := { f with ext := normExt f.ext }
+  match fmtOf f'.ext with
+  | some .pickle =>
     match storeRead st f' with
     | some (.pickled s) => .ok s
     | some (.json _) => .error .unmodelled
     | .none => raise .RuntimeError
-  else if f'.ext == ".json" then
+  | some .json =>
     match storeRead st f' with
     | some (.json j) => simFromJson fuel j
     | some (.pickled _) => .error .unmodelled
     | .none => raise .RuntimeError
-  else raise .KeyError
+  | .none => raise .KeyError
 
 end PyPhysim.C17
